@@ -14,7 +14,14 @@ RuleOf(toks) == LET r == Parse(toks) IN IF IsErr(r) THEN r.rule ELSE "-"
 Verdicts(c) ==
   (IF c.kind = "parse" THEN
      (IF Same(Parse(c.toks), c.out) THEN {} ELSE {<<"Drift", "">>}) \cup
-     (IF c.out.k = "X" /\ c.out.cls # "SyntaxError" THEN {<<"Internal", c.out.cls \o "@" \o RuleOf(c.toks)>>} ELSE {})
+     (IF c.out.k = "X" /\ c.out.cls # "SyntaxError" THEN {<<"Internal", c.out.cls \o "@" \o RuleOf(c.toks)>>} ELSE {}) \cup
+     \* C15: the focus the compiled selector reports (.main / .focus, read right after compilation and again at the
+     \* end of the run) is the one its structure determines
+     (IF c.out.k \in {"E", "C"} /\ c.attrs.ok
+         /\ ~(c.attrs.main = DMain(c.out) /\ c.attrs.focus = DFocus(c.out) /\ c.attrs.main2 = c.attrs.main /\ c.attrs.focus2 = c.attrs.focus)
+      THEN {<<"Focus", IF c.attrs.main = DMain(c.out) /\ c.attrs.focus = DFocus(c.out) THEN "changed-later" ELSE "wrong">>} ELSE {}) \cup
+     \* C15: structurally equal compiled selectors are the same object - also across the whole run
+     (IF c.out.k \in {"E", "C"} /\ ~c.attrs.same_later THEN {<<"Law", "interned-across-history">>} ELSE {})
    ELSE IF c.kind = "law" THEN
      (IF Same(Parse(c.ltoks), c.lout) /\ Same(Parse(c.rtoks), c.rout) THEN {} ELSE {<<"Drift", "">>}) \cup
      (IF c.lout.k # "X" /\ c.lout = c.rout /\ c.same THEN {} ELSE {<<"Law", c.law>>}) \cup
